@@ -91,31 +91,34 @@ theorem covers_start_iff (a b : Iv) :
   unfold In; simp [covers_start] <;> omega
 
 /-- `overlaps_at_least a b d` (the intron absence test): the intervals intersect and either share at least
-    `d` positions, or `a` lies inside `b` ending strictly before `b`'s end, or `a` contains `b`.
-    (Exact characterisation of the code; note the tie `a.2 = b.2` with `a` inside `b`, see the witness.) -/
+    `d` positions, or one of them contains the other.
+    (Exact characterisation of the code since the fix "containment first" of audit2-C G7; before it `a` inside `b`
+    counted only when it ended strictly before `b`'s end -- the tie `a.2 = b.2` fell into the partial-overlap test,
+    see `overlaps_at_least_tie_regression` and Props/C11.lean `overlapsAtLeastBuggy_mirror_witness`.) -/
 theorem overlaps_at_least_spec (a b : Iv) (d : Int) (ha : WF a) (hb : WF b) :
     overlaps_at_least a b d = true ↔
-      (overlaps a b = true ∧ (intersection_len a b ≥ d ∨ (b.1 ≤ a.1 ∧ a.2 < b.2) ∨ contains a b = true)) := by
+      (overlaps a b = true ∧ (intersection_len a b ≥ d ∨ contains b a = true ∨ contains a b = true)) := by
   unfold WF at *
   simp only [overlaps_at_least, overlaps, intersection_len, contains]
-  split <;> rename_i h1
-  · simp at h1 ⊢; omega
-  · split <;> rename_i h2 <;> simp at h1 h2 ⊢ <;> omega
+  have := ha; have := hb
+  grind
 
-/-- the test is not mirror-symmetric on ties: `a` inside `b` sharing the *left* end counts, sharing the
-    *right* end does not (relevant to C11; needs a read span shorter than the overlap threshold) -/
-theorem overlaps_at_least_tie_witness :
-    overlaps_at_least (1, 5) (1, 9) 10 = true ∧ overlaps_at_least (5, 9) (1, 9) 10 = false := by
+/-- regression of the fixed tie: `a` inside `b` counts whichever end they share (pre-fix: sharing the *left* end
+    counted, sharing the *right* end did not when `a` is shorter than the threshold; relevant to C11) -/
+theorem overlaps_at_least_tie_regression :
+    overlaps_at_least (1, 5) (1, 9) 10 = true ∧ overlaps_at_least (5, 9) (1, 9) 10 = true ∧
+    overlaps_at_least (2, 4) (1, 9) 10 = true ∧ overlaps_at_least (5, 12) (1, 9) 10 = false := by
   decide
 
 theorem overlaps_at_least_when_overlap_spec (a b : Iv) (d : Int) (ha : WF a) (hb : WF b)
     (hov : overlaps a b = true) :
     overlaps_at_least_when_overlap a b d = true ↔
-      (intersection_len a b ≥ d ∨ (b.1 ≤ a.1 ∧ a.2 < b.2) ∨ contains a b = true) := by
+      (intersection_len a b ≥ d ∨ contains b a = true ∨ contains a b = true) := by
   unfold WF at *
   simp only [overlaps_at_least_when_overlap, intersection_len, contains]
   simp [overlaps] at hov
-  split <;> rename_i h2 <;> simp at h2 ⊢ <;> omega
+  have := ha; have := hb
+  grind
 
 theorem cmp_spec (x y : Int) : (cmp x y = -1 ↔ x < y) ∧ (cmp x y = 0 ↔ x = y) ∧ (cmp x y = 1 ↔ x > y) := by
   simp only [cmp]; split
